@@ -62,13 +62,43 @@ def run(report, db, tier):
     # VarLong must not re-implement the codec
     R = report.rule('R03.6', 'VarLong only widens max_bytes')
     own = [k for k in vl.attrs if k != 'max_bytes']
-    if own:
-        for fn in own:
-            m = db.own_method(vl, fn)
-            if m is not None and fn in ('read', 'send', 'size'):
+    deleg = 0
+    for fn in own:
+        m = db.own_method(vl, fn)
+        if m is None or fn not in ('read', 'send', 'size'):
+            continue
+        # an override may only pass the inherited codec through: every path
+        # calls the inherited method once with its own arguments and hands
+        # the result on; a path that raises on its own refuses values the
+        # inherited decoder accepts and the encoder produces
+        base = db.own_method(vi, fn)
+        bad = None
+        for p in S.run(m):
+            inh = [e for e in p.flat(('call',)) if e.calls(base)
+                   or (e.fn[0] == 'attr' and e.fn[2] == fn
+                       and e.fn[1][0] == 'call'
+                       and e.fn[1][1] == ('builtin', 'super'))]
+            others = [e for e in p.flat(('call', 'store', 'setitem'))
+                      if e not in inh and not (
+                          e.kind == 'call' and e.fn == ('builtin', 'super'))
+                      and not (e.kind == 'call' and p.raises)]
+            if p.raises and len(p.outcome) == 3:
+                bad = ('varlong:extra-raise:%s' % fn, 'VarLong.%s raises on '
+                       'its own when [%s]: the inherited codec accepts that '
+                       'value (the encoder produces it), so VarLong no '
+                       'longer round-trips its range' % (fn, p.cond_text()))
+                break
+            if len(inh) != 1 or others or (
+                    p.returns and fn != 'send' and p.value != inh[0].res):
                 raise AnalysisError('VarLong overrides %s: sibling codec not '
                                     'analysed' % fn, m.node, rel(m.path))
-    report.ok(R, 'VarLong defines only %s' % sorted(vl.attrs))
+        if bad:
+            report.violation(R, bad[0], m.path, m.node, m.qualname, bad[1])
+        else:
+            deleg += 1
+            report.ok(R, 'VarLong.%s passes the inherited codec through' % fn)
+    if not own:
+        report.ok(R, 'VarLong defines only %s' % sorted(vl.attrs))
 
 
 # ---------------------------------------------------------------------------
